@@ -52,6 +52,17 @@ impl Ctx {
         let n = committed.len();
         Ctx { n, np2: n.next_power_of_two(), committed, committed_bytes, ref_root, foreign, foreign_root, rand_val, z: refs::hb(&[&[0u8]]) }
     }
+    /// Is the claim (index, leaf) true for the committed list? An index is relative to the number of
+    /// leaves the verifier was given: index i under `presented_nr` leaves denotes the heap position
+    /// i + 2^ceil(log2 presented_nr) - 1, and the claim is true when the committed tree holds that
+    /// leaf at that heap position (for the committed nr_leaves this is simply committed[i] == leaf).
+    pub fn claim_true(&self, index: usize, leaf: &Leaf, presented_nr: usize) -> bool {
+        let pos = presented_nr.checked_next_power_of_two().and_then(|p| index.checked_add(p)).and_then(|x| x.checked_sub(1));
+        match pos.and_then(|p| p.checked_sub(self.np2 - 1)) {
+            Some(j) if j < self.n => self.committed_bytes[j] == leaf_bytes(leaf),
+            _ => false,
+        }
+    }
     pub fn gen(pool: &[Vk], n: usize, with_duplicate: bool, rng: &mut ChaCha20Rng) -> Ctx {
         let base = rnd::below(rng, 1 << 40);
         let mut committed: Vec<Leaf> = (0..n).map(|i| vx::leaf(pool[(i * 7 + 3) % pool.len()], base + 1 + 3 * i as u64)).collect();
@@ -479,7 +490,7 @@ pub fn judge(ctx: &Ctx, c: &Case, class: &str, mon: &mut Monitor) -> Outcome {
         .indices
         .iter()
         .zip(c.leaves.iter())
-        .filter(|(i, l)| **i >= ctx.n || ctx.committed_bytes[**i] != leaf_bytes(l))
+        .filter(|(i, l)| !ctx.claim_true(**i, l, c.nr_leaves))
         .map(|(i, l)| (*i, hex::encode(leaf_bytes(l))))
         .collect();
     let altered_root = c.root != ctx.ref_root;
